@@ -152,6 +152,7 @@ Section Gen.
     (1 <= length (g_row_roots D NP MP g))%nat /\
     (length (g_sproofs D NP MP g) <= length (g_roots D NP MP g))%nat /\
     g_end_row D NP MP g - g_start_row D NP MP g + 1 = Z.of_nat (length (g_row_roots D NP MP g)) /\
+    g_start_row D NP MP g <= g_end_row D NP MP g /\
     existsb is_none (g_sproofs D NP MP g) = false /\ existsb is_none (g_row_proofs D NP MP g) = false /\
     t_empty root = false /\ c_empty com = false.
   Proof.
@@ -168,11 +169,73 @@ Section Gen.
     unfold gvalidate in Eg. rewrite !andb_true_iff in Eg. destruct Eg as [[[[[G1 G2] G3] G4] G5] G6].
     unfold grow_validate in Er. rewrite !andb_true_iff in Er. destruct Er as [[[[R1 R2] R3] R4] R5].
     apply negb_true_iff in G1, G5, G6, R1, R3. apply Nat.ltb_ge in G1. apply Nat.eqb_eq in G2, G4, R4.
-    apply Z.eqb_eq in R2. apply Nat.eqb_neq in R3.
+    apply Z.eqb_eq in R2. apply Nat.eqb_neq in R3. apply Z.ltb_ge in R1.
     destruct (gloop_covers _ _ _ _ _ _ (Nat.le_0_l _) El) as [_ Hcov]. cbn [skipn] in Hcov.
     rewrite Ecur, skipn_all in Hcov.
     repeat split; try assumption; try lia.
     exists w. split; [reflexivity|exact Hcov].
+  Qed.
+
+  (** ** the row range: uint32 arithmetic in [Validate], and what only [RowProof.Validate] checks *)
+
+  (** the node's own [Validate] counts rows mod 2^32: an inverted range [e+1, e] and the full range [0, 2^32-1] both
+      count ZERO rows, so a proof without any component passes it *)
+  Lemma validate_accepts_trimmed_inverted e : gvalidate D NP MP (trimmed D NP MP (e + 1) e) = true.
+  Proof.
+    unfold gvalidate, trimmed. cbn [g_roots g_sproofs g_row_roots g_row_proofs g_start_row g_end_row length existsb].
+    replace (e - (e + 1) + 1) with 0 by lia. reflexivity.
+  Qed.
+
+  Lemma validate_accepts_trimmed_wrapped : gvalidate D NP MP (trimmed D NP MP 0 (2 ^ 32 - 1)) = true.
+  Proof. reflexivity. Qed.
+
+  (** an inverted range can count any number of rows: [e - n + 1 + 2^32, e] with e < n - 1 counts n *)
+  Lemma row_count_wraps n e : 0 <= e -> e < n - 1 -> n < 2 ^ 32 ->
+    e < e - n + 1 + 2 ^ 32 < 2 ^ 32 /\ row_count_u32 (e - n + 1 + 2 ^ 32) e = n.
+  Proof.
+    intros H0 H1 H2. split; [lia|]. unfold row_count_u32.
+    replace (e - (e - n + 1 + 2 ^ 32) + 1) with (n + (-1) * 2 ^ 32) by lia.
+    rewrite Z.mod_add by lia. apply Z.mod_small. lia.
+  Qed.
+
+  (** the library's [RowProof.Validate] is what orders the range and demands a row: *)
+  Lemma row_validate_orders g root : grow_validate D T NP MP mverify g root = true ->
+    g_start_row D NP MP g <= g_end_row D NP MP g /\ (1 <= length (g_row_roots D NP MP g))%nat /\
+    g_end_row D NP MP g - g_start_row D NP MP g + 1 = Z.of_nat (length (g_row_roots D NP MP g)).
+  Proof.
+    unfold grow_validate. rewrite !andb_true_iff. intros [[[[R1 R2] R3] _] _].
+    apply negb_true_iff in R1, R3. apply Z.ltb_ge in R1. apply Z.eqb_eq in R2. apply Nat.eqb_neq in R3. lia.
+  Qed.
+
+  (** with that call removed, the fully trimmed proof with an inverted (or wrapped) row range verifies — for the
+      commitment [hfb []] that anybody can compute — against EVERY non-empty data root, for every instantiation of the
+      primitives in which [SubTreeWidth 0] is defined (it is 1 in go-square) *)
+  Theorem norowcheck_accepts_empty_proof start_row end_row root w :
+    gvalidate D NP MP (trimmed D NP MP start_row end_row) = true ->
+    t_empty root = false -> c_empty (hfb []) = false -> c_eqb (hfb []) (hfb []) = true -> width_of 0 = Some w ->
+    verify_gen_norowcheck D C T NP MP t_empty c_empty c_eqb hfb width_of leaf_ranges vsri mverify
+      (trimmed D NP MP start_row end_row) root (hfb []) = ROk.
+  Proof.
+    intros Hv Ht Hc He Hw. unfold verify_gen_norowcheck. rewrite Ht, Hc, Hv.
+    unfold trimmed. cbn [g_roots g_sproofs g_row_roots g_row_proofs negb total_shares]. rewrite He, Hw. reflexivity.
+  Qed.
+
+  Corollary norowcheck_accepts_empty_proof_ranges start_row end_row root w :
+    (start_row = end_row + 1 \/ (start_row = 0 /\ end_row = 2 ^ 32 - 1)) ->
+    t_empty root = false -> c_empty (hfb []) = false -> c_eqb (hfb []) (hfb []) = true -> width_of 0 = Some w ->
+    verify_gen_norowcheck D C T NP MP t_empty c_empty c_eqb hfb width_of leaf_ranges vsri mverify
+      (trimmed D NP MP start_row end_row) root (hfb []) = ROk.
+  Proof.
+    intros [->|[-> ->]]; apply norowcheck_accepts_empty_proof;
+      [apply validate_accepts_trimmed_inverted|apply validate_accepts_trimmed_wrapped].
+  Qed.
+
+  (** ... whereas the code as it is refuses every proof without a row *)
+  Theorem verify_needs_a_row g root com :
+    verify_gen g root com = ROk -> g_start_row D NP MP g <= g_end_row D NP MP g /\ g_row_roots D NP MP g <> [].
+  Proof.
+    intros H. apply commitment_sound in H. destruct H as (_ & _ & _ & _ & _ & H1 & _ & _ & H2 & _).
+    split; [exact H2|]. destruct (g_row_roots D NP MP g); [cbn in H1; lia|discriminate].
   Qed.
 
   (** covering spelled out: the subtree roots are the concatenation of the slices the proofs verified *)
@@ -225,6 +288,53 @@ Definition ex_verify : gproof N unit N -> N -> N -> res :=
 Example ex_accepts : ex_verify ex_g 55 61 = ROk /\ ex_verify ex_g 55 62 = RErr /\
   ex_verify (mkG N unit N [10; 11; 12; 13]%N [Some (mkS unit 5 8 tt); Some (mkS unit 0 2 tt)] [100; 101]%N [Some 7%N; Some 8%N] 3 4) 55 47 = RErr /\
   ex_verify (mkG N unit N [10; 11; 12; 13; 14]%N [Some (mkS unit 5 8 tt); None] [100; 101]%N [Some 7%N; Some 8%N] 3 4) 55 61 = RErr.
+Proof. vm_compute. repeat split. Qed.
+
+(** ** the variant without [rp.Validate(dataRoot)] is unsound: the proof without any component and the inverted row range
+    [1,0] (also [2^32-1, 2^32-2], and the wrapped [0, 2^32-1]) verifies for the commitment of the empty list against two
+    different data roots; it has no row root, no subtree root, and its range is inverted.  The code as it is refuses it. *)
+Definition ex_verify_norowcheck : gproof N unit N -> N -> N -> res :=
+  verify_gen_norowcheck N N N unit N (fun r => (r =? 0)%N) (fun c => (c =? 0)%N) N.eqb
+             (fun roots => fold_left N.add roots 1%N) (fun n => Some 1)
+             (fun s e w => Some (Z.to_nat (e - s)))
+             (fun s e _ sl w r => Some (Nat.eqb (length sl) (Z.to_nat (e - s))))
+             (fun p root r => (p + 93 =? r)%N).
+
+Definition commitment_sound_conclusion_rows (g : gproof N unit N) : Prop :=
+  (1 <= length (g_row_roots N unit N g))%nat /\
+  g_end_row N unit N g - g_start_row N unit N g + 1 = Z.of_nat (length (g_row_roots N unit N g)).
+
+Theorem commitment_sound_without_row_validate_refuted :
+  exists (g : gproof N unit N) (root root' com : N),
+    root <> root' /\
+    ex_verify_norowcheck g root com = ROk /\ ex_verify_norowcheck g root' com = ROk /\
+    ~ commitment_sound_conclusion_rows g /\
+    g_roots N unit N g = [] /\ g_row_roots N unit N g = [] /\ g_end_row N unit N g < g_start_row N unit N g /\
+    (* the unchanged code refuses it *)
+    ex_verify g root com = RErr /\ ex_verify g root' com = RErr.
+Proof.
+  exists (trimmed N unit N 1 0), 55%N, 56%N, 1%N.
+  split; [discriminate|]. split; [vm_compute; reflexivity|]. split; [vm_compute; reflexivity|].
+  split; [intros [H _]; cbn in H; lia|]. repeat split; vm_compute; reflexivity.
+Qed.
+
+Example ex_norowcheck_boundaries :
+  ex_verify_norowcheck (trimmed N unit N (2 ^ 32 - 1) (2 ^ 32 - 2)) 55 1 = ROk /\
+  ex_verify_norowcheck (trimmed N unit N 0 (2 ^ 32 - 1)) 55 1 = ROk /\
+  ex_verify_norowcheck (trimmed N unit N 0 0) 55 1 = RErr /\
+  ex_verify (trimmed N unit N (2 ^ 32 - 1) (2 ^ 32 - 2)) 55 1 = RErr /\
+  ex_verify (trimmed N unit N 0 (2 ^ 32 - 1)) 55 1 = RErr /\
+  (* honest components under an inverted range that wraps to the right count: [2^32-1, 0] counts 2 rows *)
+  ex_verify_norowcheck (mkG N unit N [10; 11; 12; 13; 14]%N [Some (mkS unit 5 8 tt); Some (mkS unit 0 2 tt)] [100; 101]%N [Some 7%N; Some 8%N] (2 ^ 32 - 1) 0) 55 61 = ROk /\
+  ex_verify (mkG N unit N [10; 11; 12; 13; 14]%N [Some (mkS unit 5 8 tt); Some (mkS unit 0 2 tt)] [100; 101]%N [Some 7%N; Some 8%N] (2 ^ 32 - 1) 0) 55 61 = RErr.
+Proof. vm_compute. repeat split. Qed.
+
+(** the summary variant (what the correspondence would compute for the changed code) on the trimmed proof *)
+Example ex_cverify_trimmed :
+  cverify (mkCP 0 [] 0 [] 1 0 true (Some 1) false false) = RErr /\
+  cverify_norowcheck (mkCP 0 [] 0 [] 1 0 true (Some 1) false false) = ROk /\
+  cverify (mkCP 0 [] 0 [] 0 (2 ^ 32 - 1) true (Some 1) false false) = RErr /\
+  cverify_norowcheck (mkCP 0 [] 0 [] 0 (2 ^ 32 - 1) true (Some 1) false false) = ROk.
 Proof. vm_compute. repeat split. Qed.
 
 (** non-vacuity of the C12 theorems, collected *)
